@@ -1,3 +1,4 @@
+mod c13;
 mod catalogue;
 mod chain;
 mod engine;
@@ -49,9 +50,92 @@ fn check(prop: &str, tier: Tier) -> i32 {
             }
             1
         }
+    } else if prop == "C13" {
+        check_c13(tier, tier_s)
     } else {
         eprintln!("MACHINERY ERROR: no check registered for {prop}");
         2
+    }
+}
+
+fn check_c13(tier: Tier, tier_s: &str) -> i32 {
+    use serde_json::json;
+    let t0 = std::time::Instant::now();
+    let findings = match run::load_findings() {
+        Ok(f) => f,
+        Err(e) => {
+            eprintln!("MACHINERY ERROR: {e}");
+            return 2;
+        }
+    };
+    let sw = c13::sweep(tier);
+    eprintln!("  [C13] instantiate sweep: {} calls, {} accepted, {} refused, {} aborted, {} accepted (precision, increment) pairs", sw.calls, sw.accepted, sw.refused, sw.aborted, sw.accepted_pairs.len());
+    let mut unlisted: Vec<(String, String)> = vec![];
+    let mut n = 0;
+    for (sig, (count, shape, detail)) in &sw.viols {
+        if let Some(f) = run::is_known(&findings, "C13", sig) {
+            println!("KNOWN-FINDING: property=C13 {sig}: {}", f.description);
+            continue;
+        }
+        n += 1;
+        let file = format!("{}/replays/C13-{n}.json", run::VERIF);
+        let _ = std::fs::create_dir_all(format!("{}/replays", run::VERIF));
+        let doc = json!({"property": "C13", "kind": "instantiate", "signature": sig, "occurrences": count, "detail": detail, "shape": shape});
+        if let Err(e) = std::fs::write(&file, serde_json::to_string_pretty(&doc).unwrap()) {
+            eprintln!("MACHINERY ERROR: {e}");
+            return 2;
+        }
+        let r1 = c13::replay(&doc);
+        let r2 = c13::replay(&doc);
+        match (r1, r2) {
+            (Ok(a), Ok(b)) if a.0 && b.0 => {}
+            _ => {
+                eprintln!("MACHINERY ERROR: C13 violation {sig} does not replay deterministically");
+                return 2;
+            }
+        }
+        unlisted.push((sig.clone(), file));
+    }
+    // integrality consequence on closures
+    let rep = run::run_given("C13", tier, c13::closure_plan(&sw.accepted_pairs, tier), n);
+    if let Some(e) = &rep.machinery_error {
+        eprintln!("MACHINERY ERROR: {e}");
+        return 2;
+    }
+    for (sig, desc) in &rep.known {
+        println!("KNOWN-FINDING: property=C13 {sig}: {desc}");
+    }
+    for (k, nn) in &rep.other_props {
+        println!("note: not deciding here: {k} x{nn}");
+    }
+    unlisted.extend(rep.unlisted.iter().cloned());
+    let (mut cov, assumptions) = evidence::book_evidence(&rep);
+    let cst: usize = rep.scen.iter().map(|s| s.stats.states).sum();
+    let ctr: u64 = rep.scen.iter().map(|s| s.stats.l_transitions + s.stats.p_transitions + s.stats.extra_execs).sum();
+    cov["states"] = json!(cst as u64 + sw.accepted);
+    cov["transitions"] = json!(ctr + sw.calls);
+    cov["traces_validated_against_impl"] = json!(ctr + sw.calls);
+    cov["instantiate_sweep"] = json!({"calls": sw.calls, "accepted": sw.accepted, "refused": sw.refused, "aborted": sw.aborted,
+        "refusals_by_first_reference_reason": sw.by_reason, "accepted_precision_increment_pairs": sw.accepted_pairs.iter().map(|(p, i)| format!("({p},{i})")).collect::<Vec<_>>(),
+        "enumeration": if tier == Tier::Quick { "every (precision 0..20,38..40 x increment) pair x all shapes within 2 field deviations of a valid baseline" } else { "3 field deviations everywhere; full 278784-shape product for precision 0,1,2,17,18,19 at increments 0,1,10^p,10^p+1" }});
+    let mut samples = sw.samples.clone();
+    samples.extend(rep.samples.iter().cloned());
+    cov["samples"] = json!(samples);
+    cov["explanation"] = json!("states = accepted instantiations (each a distinct initial state) + states of the integrality closures; transitions = instantiate calls + closure transitions; each is one execution of the real entry point compared with the reference");
+    if let Err(e) = evidence::write_evidence("C13", tier_s, cov, assumptions, t0.elapsed().as_secs_f64(), unlisted.len(), BTreeMap::new()) {
+        eprintln!("MACHINERY ERROR: {e}");
+        return 2;
+    }
+    println!("C13 {tier_s}: {} instantiate calls, {} closures with {cst} states / {ctr} transitions, {:.1}s", sw.calls, rep.scen.len(), t0.elapsed().as_secs_f64());
+    if unlisted.is_empty() {
+        println!("OK property=C13 held on everything explored");
+        0
+    } else {
+        for (sig, file) in &unlisted {
+            println!("  {sig}");
+            println!("VIOLATION property=C13 replay={file}");
+        }
+        1
     }
 }
 
@@ -73,6 +157,26 @@ fn replay(path: &str) -> i32 {
     let prop = doc["property"].as_str().unwrap_or("?").to_string();
     println!("replaying {path}: property {prop}, signature {}", doc["signature"].as_str().unwrap_or(""));
     println!("detail recorded: {}", doc["detail"].as_str().unwrap_or(""));
+    if doc.get("kind").and_then(|k| k.as_str()) == Some("instantiate") {
+        return match c13::replay(&doc) {
+            Ok((rep, log)) => {
+                for l in &log {
+                    println!("{l}");
+                }
+                if rep {
+                    println!("VIOLATION property={prop} replay={path}");
+                    1
+                } else {
+                    println!("not reproduced on the current tree");
+                    0
+                }
+            }
+            Err(e) => {
+                eprintln!("MACHINERY ERROR: {e}");
+                2
+            }
+        };
+    }
     let r = run::replay_book(&doc);
     match r {
         Ok(r) => {
@@ -108,6 +212,24 @@ fn main() {
                 },
             };
             check(&prop, tier)
+        }
+        Some("xcheck") => {
+            // debugging aid: run the plan of one property, decide on another (never registered in MANIFEST)
+            let plan_prop = args.get(2).cloned().unwrap_or_default();
+            let decide = args.get(3).cloned().unwrap_or_default();
+            let tier = if args.get(4).map(|s| s.as_str()) == Some("thorough") { Tier::Thorough } else { Tier::Quick };
+            let pl = if plan_prop == "C13" { c13::closure_plan(&c13::sweep(Tier::Quick).accepted_pairs, tier) } else { catalogue::plan(&plan_prop, tier) };
+            let rep = run::run_given(&decide, tier, pl, 900);
+            if let Some(e) = &rep.machinery_error {
+                eprintln!("MACHINERY ERROR: {e}");
+            }
+            for (sig, file) in &rep.unlisted {
+                println!("  {sig}\nVIOLATION property={decide} replay={file}");
+            }
+            for (k, n) in &rep.other_props {
+                println!("note: {k} x{n}");
+            }
+            if rep.unlisted.is_empty() { 0 } else { 1 }
         }
         Some("replay") => replay(args.get(2).map(|s| s.as_str()).unwrap_or("")),
         _ => {
